@@ -350,10 +350,13 @@ func runC12(c ocCase) (fail string, stats map[string]bool) {
 				stats["session-still-closing-at-shutdown"] = true
 				if s.onPolling() && s.sr.Sock.Transport().ReadyState() == "closing" {
 					// nothing was buffered: the polling transport itself is closing and waits for the next poll to
-					// carry the close packet (at most the close timeout). A second close call has nothing left to
-					// do on such a transport (as upstream); the session is bounded by the close timeout instead
-					awaitsPoll[s] = true
+					// carry the close packet (at most the close timeout). "Closing the server closes every
+					// session ... and leaves the client table empty": the shutdown does not wait for that poll
+					// (earlier rounds had tolerated such a session outliving the shutdown, as upstream does)
 					stats["session-awaiting-poll-for-close-packet-at-shutdown"] = true
+					if isKnown("C12", sigClosingOutlivesShutdown) {
+						awaitsPoll[s] = true
+					}
 				}
 			}
 		}
@@ -804,6 +807,8 @@ func TestC12CloseFromFlushListenerFinding(t *testing.T) {
 		}
 	}
 }
+
+const sigClosingOutlivesShutdown = "gracefully-closing-polling-session-outlives-the-shutdown"
 
 const sigCloseRacingFlush = "graceful-close-racing-with-a-flush-on-another-goroutine-never-completes"
 
